@@ -15,7 +15,9 @@ SPEC_MODULES = []  # modules whose top-level functions are spec (ghost) function
 
 def contract(qualname, params=None, returns=None, requires=(), ensures=(), modifies=(),
              raises=(), loops=None, locals=None, ghost=None, trusted=False, note="",
-             exc_ensures=None, inline=(), pure=False, decreases=None, fresh=False):
+             exc_ensures=None, inline=(), pure=False, decreases=None, fresh=False,
+             ghost_vars=None, ghost_code=(), ghost_returns=None, raises_when=None, writes_fresh=(),
+             native_ensures=None, native_requires=None):
     """Register a contract for the real function `qualname` (module path + function / Class.method).
 
     params    {name: type-string}            types of the symbolic inputs
@@ -33,7 +35,9 @@ def contract(qualname, params=None, returns=None, requires=(), ensures=(), modif
              raises=list(raises), loops=dict(loops or {}), locals=dict(locals or {}),
              ghost=dict(ghost or {}), trusted=bool(trusted), note=note,
              exc_ensures=dict(exc_ensures or {}), inline=list(inline), pure=bool(pure),
-             decreases=decreases, fresh=fresh)
+             decreases=decreases, fresh=fresh, ghost_vars=dict(ghost_vars or {}),
+             ghost_code=list(ghost_code), ghost_returns=dict(ghost_returns or {}), raises_when=dict(raises_when or {}),
+             writes_fresh=list(writes_fresh), native_ensures=native_ensures, native_requires=native_requires)
     CONTRACTS[qualname] = c
     return c
 
